@@ -61,15 +61,15 @@ def tls (impl : String) : P Verdict := do
     let o ← list (pair bytes tok)
     pure (kind, o))
   let trace ← list (do
-    let c ← nat; let s ← pEp; let d ← pEp; let pl ← bytes; let t ← bool
-    pure (c, s, d, pl, t))
+    let c ← nat; let s ← pEp; let d ← pEp; let pl ← bytes; let t ← bool; let syn ← bool
+    pure (c, s, d, pl, t, syn))
   let oracle := conns.flatMap (·.2)
-  let isTlsTab := trace.map (fun x => (x.2.2.2.1, x.2.2.2.2))
+  let isTlsTab := trace.map (fun x => (x.2.2.2.1, x.2.2.2.2.1))
   let P : TlsParams (Bytes × Bool) String :=
     { newReader := ([], false), addBytes := readerAdd oracle,
       isTls := fun b => (isTlsTab.lookup b).getD false }
   let segs : List Seg := trace.map fun x =>
-    { src := x.2.1, dst := x.2.2.1, seq := 0, syn := false, ack := false, fin := false, rst := false,
+    { src := x.2.1, dst := x.2.2.1, seq := 0, syn := x.2.2.2.2.2, ack := false, fin := false, rst := false,
       payload := x.2.2.2.1, time := 0, wall := 0, tsval := none }
   let r := (tlsAnalyzer P).runOutsNE ({ cap := cap }, ()) segs
   let outs := r.1.map fun o => match o with | some s => s | none => "-"
